@@ -1,15 +1,15 @@
 CONSTANTS
-  MaxObj = 3
+  MaxObj = 4
   MaxSteps = 6
-  CreateClasses = {"Mid","Leaf","DD"}
-  QueryClasses = {"DA","Base","Mid"}
+  CreateClasses = {"P","C","DD","Mid"}
+  QueryClasses = {"DA","Base","P"}
   AllowClear = TRUE
-  AllowRelate = FALSE
+  AllowRelate = TRUE
   AllowQueryX = FALSE
   AllowSweep = TRUE
   AllowDeclare = FALSE
-  AllowInfer = FALSE
-  CopyModes = {"copy","from_dao"}
+  AllowInfer = TRUE
+  CopyModes = {}
   UnregisteredModes = {}
   Hist = FALSE
   PopIdOfNone = FALSE
